@@ -5,6 +5,7 @@ from vf import h5
 from vf.core import Acc, Verdict, active, drive, guarded, short, sig64
 from vf.gen import soup
 from vf.ref import prescan as P
+from vf.ref import treebuilder as T
 
 ID = "C16"
 TECHNIQUE = ("differential property-based testing strict vs. non-strict parsing over generated markup soup and every truncation (EOF site) of "
@@ -18,6 +19,13 @@ RULE = ("Hypothesis markup soup x {document, fragment in 45 contexts} x scriptin
         "Non-trivial = E != []; distinct = distinct (first error code, set of codes) signature; the evidence lists the codes reached.")
 ASSUMPTIONS = ["positions are judged against the newline-normalised input; a column may equal the line length (position after the last character)"]
 SHRINK = {"text": "str", "first": "str", "data": "bytes"}
+
+
+DOCTYPES = ['<!DOCTYPE html PUBLIC "">', "<!DOCTYPE html SYSTEM ''>", '<!DOCTYPE html PUBLIC "" "">', '<!DOCTYPE html SYSTEM "about:legacy-compat">',
+            '<!DOCTYPE html PUBLIC "" "about:legacy-compat">', '<!DOCTYPE html PUBLIC "-//W3C//DTD HTML 4.01//EN">', "<!doctype HTML>", "<!DOCTYPE htm>", "",
+            '<!DOCTYPE html SYSTEM "">', '<!DOCTYPE html PUBLIC "-//W3C//DTD XHTML 1.0 Strict//EN" "http://www.w3.org/TR/xhtml1/DTD/xhtml1-strict.dtd">']
+INSERTS = ["</i>", "</p>", "<table>", "</table>", "<b>", "x", "\n", "</td>", "<tr>", "&amp;", "<!-- c -->", "</br>", " ", "<li>", "</body>", "<p>", "<svg>", "</svg>", "\t\n"]
+WS_TAILS = ["", " ", "\n", "\n\n ", "x", " x", "&#32;", "<!-- c -->", "\n<!-- c -->"]
 
 
 def _lines(text):
@@ -85,6 +93,19 @@ def check_case(case):
     if errs and raised is None:
         return Verdict("fail", "non-strict recorded %r but strict mode raised nothing; input %s" % (errs[0], short(text, 150)), "strict-silent:" + codes[0],
                        nontrivial=True, classes=classes)
+    if not errs:
+        # 'exactly when a parse error exists': an input on which html5lib records nothing must be free of tree-construction errors
+        # by the standard (the reference tree constructor marks each of the standard's parse-error steps it takes in its trace)
+        # (documents only: for fragments the reference models html5lib's set-up of the context, not the standard's)
+        try:
+            ref = T.parse_document(text, scripting=scripting) if container is None else None
+        except Exception:
+            ref = None
+        if ref is not None and "tree-error" in ref.trace and not any(str(x).startswith("dev:") for x in ref.trace):
+            return Verdict("fail", "no parse error is recorded (and strict mode %s) although tree construction by the standard hits a parse error; input %s container=%r"
+                           % ("raised nothing" if raised is None else "raised %r" % str(raised), short(text, 300), container), "error-missing", nontrivial=True, classes=classes)
+        if ref is not None:
+            classes.append("clean-by-reference")
     if not errs and raised is not None:
         return Verdict("fail", "strict mode raised %r but the non-strict parse recorded no error; input %s" % (str(raised), short(text, 150)), "strict-spurious",
                        nontrivial=True, classes=classes)
@@ -194,6 +215,7 @@ def shards(tier):
     for ai in (6, 7, 8):
         out.append({"kind": "tiny", "alphabet": ai, "len": 4 if quick else 6})
     out += [{"kind": "bytes", "n": 2500 if quick else 40000} for _ in range(2)]
+    out += [{"kind": "mutated", "n": 700 if quick else 12000} for _ in range(4)]
     return out
 
 
@@ -231,6 +253,30 @@ def run_shard(desc, seed, tier):
                 case = {"text": ("<!DOCTYPE html>" if k % 2 else "") + text, "container": None if k % 5 else "div", "scripting": False}
                 acc.add(case, check_case(case))
         acc.extra["tiny_sequences"] = n
+    elif kind == "mutated":
+        # conforming documents with ONE edit: a cut, another DOCTYPE, one inserted token.  Most of them have exactly one parse error
+        # (or none), which is where 'recorded nothing' / 'raised nothing' can be wrong
+        from vf.gen import conforming
+
+        def fn(x):
+            doc, r, salt = x
+            text = conforming.writer_styled(doc, salt) if salt else conforming.writer(doc)
+            n = len(text)
+            muts = [text[: r % (n + 1)]]
+            if text.lower().startswith("<!doctype"):
+                muts.append(DOCTYPES[r % len(DOCTYPES)] + text[text.find(">") + 1:])
+            j = (r // 3) % (n + 1)
+            muts.append(text[:j] + INSERTS[(r // 7) % len(INSERTS)] + text[j:])
+            # the same insertion at a tag boundary
+            b = [i for i in range(n) if text[i] == "<"]
+            if b:
+                j = b[(r // 11) % len(b)]
+                muts.append(text[:j] + INSERTS[(r // 13) % len(INSERTS)] + text[j:])
+                muts.append(text[:j] + WS_TAILS[(r // 17) % len(WS_TAILS)])
+            for m in muts:
+                case = {"text": m, "container": None, "scripting": False}
+                acc.add(case, check_case(case))
+        drive(st.tuples(conforming._doc_strategy(30), st.integers(0, 10 ** 9), st.integers(0, 7)), fn, desc["n"], seed)
     elif kind == "bytes":
         from vf.gen.soup import sized_binary
         from vf.props import c06
